@@ -17,6 +17,7 @@ import (
 func init() {
 	vfHarnesses["C15_ops"] = vfH_C15_ops
 	vfHarnesses["C15_props"] = vfH_C15_props
+	vfHarnesses["C15_ops4"] = vfH_C15_ops4
 	vfHarnesses["C15_refused"] = vfH_C15_refused
 }
 
@@ -186,14 +187,17 @@ func vfNextOp(step int, cur vfValue) (*protocol.LockCommandData, vfValue) {
 	}
 }
 
-func vfH_C15_ops()   { vfWithProps = false; vfC15Ops() }
-func vfH_C15_props() { vfWithProps = true; vfC15Ops() }
+var vfC15Steps = 3
+
+func vfH_C15_ops()   { vfWithProps, vfC15Steps = false, 3; vfC15Ops() }
+func vfH_C15_ops4()  { vfWithProps, vfC15Steps = false, 4; vfC15Ops() }
+func vfH_C15_props() { vfWithProps, vfC15Steps = true, 3; vfC15Ops() }
 
 func vfC15Ops() {
 	env := vfNewEnv(1)
 	key := vfKey(1)
 	cur := vfValue{kind: vfVNone}
-	for step := 0; step < 3; step++ {
+	for step := 0; step < vfC15Steps; step++ {
 		data, next := vfNextOp(step, cur)
 		c := env.newCmd(protocol.COMMAND_LOCK, key, vfLockId(uint8(1+step)))
 		c.Flag = protocol.LOCK_FLAG_CONTAINS_DATA
